@@ -35,7 +35,7 @@ def classify(c, ob, k, spec, spec_ret=None):
     return {'what': what, 'sig': sig, 'input': oc.replay_input(c, k), 'observed_view': b.get('view'), 'expected_view': spec,
             'observed_result': [b['ret'], b['payload']]}
 
-def analyse(cases, obs, bindir, tag, findings, broken, stats):
+def analyse(cases, obs, bindir, tag, findings, broken, stats, combine=0):
     # layer-kind pattern cases (no operations): one combined evaluation each; a failure is split afterwards
     pats = [c for c in cases if oc.is_pattern(c)]
     cases = [c for c in cases if not oc.is_pattern(c)]
@@ -54,19 +54,12 @@ def analyse(cases, obs, bindir, tag, findings, broken, stats):
                 elif len([b for b in broken if b.get('kind') == 'correspondence']) < 5:
                     broken.append({'kind': 'correspondence', 'name': 'Model/Overlay.v scan vs OverlayFs on a pattern case', 'case': oc.replay_input(c, -1),
                                    'implementation': obs[c['id']]['view0']})
-    # tie: model = implementation
-    tie_fail, errs = oc.eval_bools('c10_tie_' + tag, [oc.expr_tie(c, obs[c['id']]) for c in cases])
-    if errs: broken.append({'kind': 'correspondence', 'name': 'Coq evaluation of the cases failed', 'log': errs[0]['log']})
-    # property predicate on the implementation's observations
-    # (the 96 enumerated open-flag cases share two layer sets: the union of the initial view is evaluated once for each)
+    # tie: model = implementation; property predicate on the implementation's observations: union of the initial view
+    # (the 96 enumerated open-flag cases share two layer sets: the union of the initial view is evaluated once for each),
+    # every step an ordinary-file-system step (with an upper layer); no upper layer: modifying operations fail and change
+    # nothing (python, below), the others answer as a read-only file system
     uni = [i for i, c in enumerate(cases) if not oc.is_flagcase(c) or c['id'] in ('o1r', 'o0r')]
-    uni_fail, e2 = oc.eval_bools('c10_uni_' + tag, [oc.expr_union(cases[i], obs[cases[i]['id']]) for i in uni])
-    uni_fail = set(uni[i] for i in uni_fail)
     up = [i for i, c in enumerate(cases) if c['upper']]
-    ord_fail, e3 = oc.eval_bools('c10_ord_' + tag, [oc.expr_ordinary(cases[i], obs[cases[i]['id']]) for i in up])
-    ord_fail = set(up[i] for i in ord_fail)
-    if e2 or e3: broken.append({'kind': 'correspondence', 'name': 'Coq evaluation of the predicate failed', 'log': (e2 or e3)[0]['log']})
-    # no upper layer: modifying operations fail and change nothing; the others answer as a read-only file system
     noup = [i for i, c in enumerate(cases) if not c['upper']]
     ro_exprs = []
     for i in noup:
@@ -74,7 +67,25 @@ def analyse(cases, obs, bindir, tag, findings, broken, stats):
         keep = [j for j, o in enumerate(c['ops']) if not oc.modifying(o)]
         c2 = dict(c, ops=[c['ops'][j] for j in keep]); ob2 = dict(ob, ops=[ob['ops'][j] for j in keep])
         ro_exprs.append(oc.expr_ordinary(c2, ob2))
-    ro_fail, e4 = oc.eval_bools('c10_ro_' + tag, ro_exprs)
+    specs = [('c10_tie_' + tag, [oc.expr_tie(c, obs[c['id']]) for c in cases]),
+             ('c10_uni_' + tag, [oc.expr_union(cases[i], obs[cases[i]['id']]) for i in uni]),
+             ('c10_ord_' + tag, [oc.expr_ordinary(cases[i], obs[cases[i]['id']]) for i in up]),
+             ('c10_ro_' + tag, ro_exprs)]
+    if combine:
+        # few long histories: all four evaluations of a case sit next to each other in one list, cut into at most `combine` coqc
+        # runs (the start-up of coqc - loading the model - costs more than evaluating a case)
+        flat = sorted(((si, li, e) for si, (_, ex) in enumerate(specs) for li, e in enumerate(ex)),
+                      key=lambda x: ((uni, up, noup)[x[0] - 1][x[1]] if x[0] else x[1], x[0]))
+        f, e = oc.eval_bools('c10_all_' + tag, [x[2] for x in flat], shard=max(1, -(-len(flat) // combine)))
+        res = [(set(), e) for _ in specs]
+        for i in f: res[flat[i][0]][0].add(flat[i][1])
+    else:
+        res = [oc.eval_bools(n, ex) for n, ex in specs]
+    (tie_fail, errs), (uni_fail, e2), (ord_fail, e3), (ro_fail, e4) = res
+    if errs: broken.append({'kind': 'correspondence', 'name': 'Coq evaluation of the cases failed', 'log': errs[0]['log']})
+    uni_fail = set(uni[i] for i in uni_fail)
+    ord_fail = set(up[i] for i in ord_fail)
+    if (e2 or e3 or e4) and not (combine and errs): broken.append({'kind': 'correspondence', 'name': 'Coq evaluation of the predicate failed', 'log': (e2 or e3 or e4)[0]['log']})
     ro_fail = set(noup[i] for i in ro_fail)
     pred_fail = set()
     for i, c in enumerate(cases):
@@ -136,7 +147,7 @@ def audit_blocks(tier, bindir, findings, broken, stats):
     findings.extend(f2); broken.extend(b2)
     stats['evals'] += sum(len(c['ops']) + 1 for c in free); stats['audit_free_ops'] = sum(len(c['ops']) for c in free)
     # configuration cells and the large directory through the model (every cell is the same state transformer)
-    cells = oa.cell_cases(PROP, False, full=(tier == 'thorough')) + oa.bigdir_cases(PROP, False)
+    cells = oa.cell_cases(PROP, False, full=(tier == 'thorough')) + oa.bigdir_cases(PROP, False) + oa.root_cases(PROP, False)
     cobs = oc.run_harness(cells, bindir, 'c10g')
     good = []
     for c in cells:
@@ -145,6 +156,13 @@ def audit_blocks(tier, bindir, findings, broken, stats):
             broken.append({'kind': 'harness', 'name': 'audit block: harness output incomplete or layers not materialised', 'case': c['id']})
         else: good.append(c)
     stats['audit_cells'] = len(good)
+    # the root inode as target (seed C10f): {upper, no upper} x {1..3 lowers} x {root xattrs in no layer / the lowers / the upper};
+    # all predicates (lower dumps unchanged, nothing succeeds or changes without upper, union, ordinary file system) and the model
+    roots = [c for c in good if c['id'][0] == 'r']; good = [c for c in good if c['id'][0] != 'r']
+    stats['audit_root_cases'] = len(roots)
+    import time; t1 = time.time()
+    analyse(roots, cobs, bindir, 'r', findings, broken, stats, combine=6)
+    log('C10   root block (%d cases) evaluated in %.1f s' % (len(roots), time.time() - t1))
     if tier == 'thorough':
         analyse(good, cobs, bindir, 'g', findings, broken, stats)
         return
@@ -178,7 +196,10 @@ def run_check(tier, seed):
                       'entries are directories, regular files, symlinks and 0:0 whiteout devices; no set-gid directories; the three opaque xattr names are not set or read by the client',
                       'layers are PassthroughFs instances that were import()ed but not init()ed, as the repository\'s overlay example creates them']
     findings = []; broken = []
-    std_audit(ev, PROP, broken)
+    import time
+    t0 = time.time()
+    def lap(what): log('C10 %-28s %6.1f s' % (what, time.time() - t0))
+    std_audit(ev, PROP, broken); lap('coq build + audit')
     ok_ev, out_ev = coq_make(['Model/OverlayEval.vo'])      # the case evaluators live outside the proofs' cone (Uint63 hashes)
     if not ok_ev: broken.append({'kind': 'correspondence', 'name': 'coq/Model/OverlayEval.v does not build', 'log': out_ev[-1500:]})
     ok, out, bindir = cargo_build(['overlay'])
@@ -189,8 +210,9 @@ def run_check(tier, seed):
         n = 20 if tier == "quick" else 1500      # (trimmed from 40 when the deterministic audit blocks were added)
         cases, obs, badh = oc.explore(PROP, seed, n, False, bindir, 'c10', patterns=('full' if tier == 'thorough' else True), open_flags_enum=('full' if tier == 'thorough' else True))
         if badh: broken.append({'kind': 'harness', 'name': 'harness output incomplete or layers not materialised as generated', 'cases': badh[:5]})
-        analyse(cases, obs, bindir, 'a', findings, broken, stats)
-        audit_blocks(tier, bindir, findings, broken, stats)
+        lap('harness build + main run')
+        analyse(cases, obs, bindir, 'a', findings, broken, stats); lap('main cases evaluated')
+        audit_blocks(tier, bindir, findings, broken, stats); lap('audit blocks')
         if broken and not [f for f in findings if not finding_known(f, known_findings(PROP))]:
             # a proof or tie broke: search harder for a concrete failing input
             cases2, obs2, _ = oc.explore(PROP, seed + 7919, n * 4, False, bindir, 'c10x', with_corpus=False)
@@ -206,4 +228,5 @@ def run_check(tier, seed):
     ev.cov['model_vs_impl_cases'] = stats['tie_cases']
     ev.cov['pattern_cases'] = stats.get('patterns', 0)
     ev.cov['audit_free_ops'] = stats.get('audit_free_ops', 0); ev.cov['audit_cell_cases'] = stats.get('audit_cells', 0)
+    ev.cov['audit_root_cases'] = stats.get('audit_root_cases', 0)
     return finish(ev, PROP, findings, broken)
